@@ -254,6 +254,7 @@ def run_prefix(ctx: Ctx) -> RuleResult:
             and const_str(n.left).startswith('__')]
     tm_f = [const_str(n.left) for n in tm.body_nodes() if isinstance(n, ast.BinOp) and isinstance(n.op, ast.Mod) and const_str(n.left)]
     for what, prod, f in (('BIN split', sp_f, sp), ('TERM', tm_f, tm)):
+        prod = sorted(set(prod))        # (the same format written out at several uses counts once)
         ok = len(prod) == 1 and any(c and _fmt_prefix(prod[0]).startswith(c) for c in cons)
         mine = [c for c in cons if prod and c and _fmt_prefix(prod[0]).startswith(c)]
         res.ob('%s %s' % (f.loc(), f.qual), 'CNF %s helpers named %r are recognised by revert_cnf via %r' % (what, prod, mine), ok)
@@ -316,16 +317,34 @@ def run_ambig_index(ctx: Ctx) -> RuleResult:
         if not ok:
             res.finding(f, f.node, 'indices are not computed by enumerating the rule\'s expansion', construct='index-base')
     calls = [n for n in ib.body_nodes() if isinstance(n, ast.Call) and norm(n.func) in ('maybe_create_child_filter', 'maybe_create_ambiguous_expander')]
+    from ..exprs import bind_call, influences
+    bound_args = {}
     for c in calls:
-        pos = 0 if norm(c.func) == 'maybe_create_child_filter' else 1
-        # <loop variable over the rules>.expansion
+        callee = repo.func('lark.parse_tree_builder:' + norm(c.func))
+        bnd, _exact = bind_call(c, callee.positional_names())
+        bound_args[norm(c.func)] = bnd
+        # <loop variable over the rules>.expansion  (positional or by keyword, directly or through a local)
         rvars = {norm(l.target) for l in ib.body_nodes() if isinstance(l, ast.For) and isinstance(l.target, ast.Name)}
-        ok = len(c.args) > pos and isinstance(c.args[pos], ast.Attribute) and c.args[pos].attr == 'expansion' and norm(c.args[pos].value) in rvars
+        a_ = bnd.get('expansion')
+        ok = a_ is not None and isinstance(a_, ast.Attribute) and a_.attr == 'expansion' and norm(a_.value) in rvars
+        if not ok and isinstance(a_, ast.Name):
+            defs_ = [d.value for d in ib.body_nodes() if isinstance(d, ast.Assign) and len(d.targets) == 1 and norm(d.targets[0]) == a_.id]
+            ok = len(defs_) == 1 and isinstance(defs_[0], ast.Attribute) and defs_[0].attr == 'expansion' and norm(defs_[0].value) in rvars
         res.ob(ib.loc(c), '%s receives rule.expansion' % norm(c.func), ok)
         if not ok:
             res.finding(ib, c, '%s is not given the rule\'s own expansion' % norm(c.func), construct='index-arg:' + norm(c.func))
     # placeholders only when maybe_placeholders
-    ok = any(has_pat(list(ast.walk(c)), '$o.empty_indices if self.maybe_placeholders else None') for c in calls)
+    # (dependence, not spelling: the argument bound to _empty_indices depends on <options>.empty_indices and on
+    #  <self>.maybe_placeholders, and has a None alternative)
+    ei = bound_args.get('maybe_create_child_filter', {}).get('_empty_indices')
+    ok = False
+    if ei is not None:
+        deps = {x.attr for x in influences(ib, ei)}
+        none_alt = any(isinstance(x, ast.Constant) and x.value is None for x in ast.walk(ei))
+        if isinstance(ei, ast.Name):
+            none_alt = any(isinstance(d, ast.Assign) and norm(d.targets[0]) == ei.id and isinstance(d.value, ast.Constant) and d.value.value is None
+                           for d in ib.body_nodes())
+        ok = {'empty_indices', 'maybe_placeholders'} <= deps and none_alt
     res.ob(site, 'None placeholders are inserted only under maybe_placeholders', ok, props=['C03'])
     if not ok:
         res.finding(ib, ib.node, 'empty_indices are passed to the child filter regardless of maybe_placeholders', construct='placeholders', props=['C03'])
